@@ -23,17 +23,21 @@ CONSTANTS RF1,          \* replication factors explored with one series
                         \* has no connection to the node (peer in back-off after earlier failures: the failure
                         \* is decided in getConnection, before any RPC); it holds for a NODE, i.e. for every
                         \* write addressed to it.  (A failed dial is accounted like "other".)
+                        \* "notready" = the write is a LOCAL one (the receiver is itself a replica, RouterIngestor)
+                        \* and the tenant's TSDB is not ready; with it in Outcomes Init also picks the local node.
+                        \* A write that carries several tenants is still ONE write with ONE answer.
           ReplThresholdIsQuorum,
           WithTimeout,  \* also explore the forward timeout firing at any moment
-          CaseRF1, CaseRF2, CaseOutcomes   \* leg B case generation (see the end)
+          CaseRF1, CaseRF2, CaseRFLocal, CaseOutcomes   \* leg B case generation (see the end)
 
 VARIABLES rf, nn, nser, start, rep,   \* the request (chosen at Init, then constant)
+          local,                      \* node that is the receiver itself (its write goes to the local TSDB), or -1
           outc,                       \* <node,replica> -> outcome (the fault assignment)
           pending,                    \* writes whose answer has not been accounted yet
           succ, fail, conf, errs,     \* per-series counters of fanoutForward
           result,                     \* 0 = still waiting, otherwise the HTTP status
           timedOut
-vars == <<rf, nn, nser, start, rep, outc, pending, succ, fail, conf, errs, result, timedOut>>
+vars == <<rf, nn, nser, start, rep, local, outc, pending, succ, fail, conf, errs, result, timedOut>>
 
 ErsOf(rf_, nn_, nser_, start_, rep_) ==
     LET reps == IF rep_ = 0 THEN 0..(rf_ - 1) ELSE {rep_ - 1} IN
@@ -51,12 +55,18 @@ Shapes == { [rf |-> r, nn |-> r, nser |-> 1] : r \in RF1 } \cup { [rf |-> r, nn 
 Init == /\ \E sh \in Shapes : rf = sh.rf /\ nn = sh.nn /\ nser = sh.nser
         /\ start \in { f \in [1..nser -> 0..(nn - 1)] : f[1] = 0 }
         /\ rep \in 0..rf
-        /\ \E down \in (IF "noconn" \in Outcomes THEN SUBSET (0..(nn - 1)) ELSE {{}}) :
+        /\ local \in (IF "notready" \in Outcomes THEN -1..(nn - 1) ELSE {-1})
+        /\ \E down \in (IF "noconn" \in Outcomes THEN SUBSET ((0..(nn - 1)) \ {local}) ELSE {{}}) :
+              \* a local write fails with conflicts, "not ready" or something else, never with a gRPC status;
+              \* only a local write can be "not ready"; the receiver is never in back-off towards itself
               outc \in { f \in [ErsOf(rf, nn, nser, start, rep) -> Outcomes] :
-                           \A er \in DOMAIN f : (f[er] = "noconn") <=> (er[1] \in down) }
+                           \A er \in DOMAIN f :
+                              ((f[er] = "noconn") <=> (er[1] \in down))
+                              /\ ((er[1] = local) => (f[er] \in {"ok", "conflict", "notready", "other"}))
+                              /\ ((f[er] = "notready") => (er[1] = local)) }
         /\ pending = ErsOf(rf, nn, nser, start, rep)
         /\ succ = [s \in 1..nser |-> 0] /\ fail = [s \in 1..nser |-> 0] /\ conf = [s \in 1..nser |-> 0]
-        /\ errs = [s \in 1..nser |-> [c |-> 0, u |-> 0, r |-> 0, o |-> 0]]
+        /\ errs = [s \in 1..nser |-> [c |-> 0, u |-> 0, r |-> 0, l |-> 0, o |-> 0]]
         /\ result = 0 /\ timedOut = FALSE
 
 (* one iteration of the select loop: a response is received and accounted *)
@@ -72,20 +82,21 @@ Respond(er) ==
                                  ELSE [c |-> errs[s].c + (IF o = "conflict" THEN 1 ELSE 0),
                                        u |-> errs[s].u + (IF o = "unavailable" THEN 1 ELSE 0),
                                        r |-> errs[s].r + (IF o = "noconn" THEN 1 ELSE 0),
+                                       l |-> errs[s].l + (IF o = "notready" THEN 1 ELSE 0),
                                        o |-> errs[s].o + (IF o = "other" THEN 1 ELSE 0)]]
        IN /\ succ' = succ1 /\ fail' = fail1 /\ conf' = conf1 /\ errs' = errs1
           /\ result' = IF CanReturnEarly(S, succ1, conf1, ST, FT) THEN Decide(S, fail1, errs1, FT, TH) ELSE 0
-    /\ UNCHANGED <<rf, nn, nser, start, rep, outc, timedOut>>
+    /\ UNCHANGED <<rf, nn, nser, start, rep, local, outc, timedOut>>
 
 (* all writes answered, channel closed *)
 Closed == /\ result = 0 /\ pending = {}
           /\ result' = Decide(S, fail, errs, FT, TH)
-          /\ UNCHANGED <<rf, nn, nser, start, rep, outc, pending, succ, fail, conf, errs, timedOut>>
+          /\ UNCHANGED <<rf, nn, nser, start, rep, local, outc, pending, succ, fail, conf, errs, timedOut>>
 
 (* forward timeout: ctx.Err() -> 500 *)
 Timeout == /\ WithTimeout /\ result = 0
            /\ result' = 500 /\ timedOut' = TRUE
-           /\ UNCHANGED <<rf, nn, nser, start, rep, outc, pending, succ, fail, conf, errs>>
+           /\ UNCHANGED <<rf, nn, nser, start, rep, local, outc, pending, succ, fail, conf, errs>>
 
 Next == (\E er \in pending : Respond(er)) \/ Closed \/ Timeout
 Spec == Init /\ [][Next]_vars /\ WF_vars((\E er \in pending : Respond(er)) \/ Closed)
@@ -95,7 +106,7 @@ Tot(s, o) == Cardinality({ er \in Ers : s \in SeriesOf(er) /\ outc[er] = o })
 (* stored at answer time >= accounted successes; the model uses the accounted ones (worst case) *)
 Run == [status |-> result,
         series |-> [s \in S |-> [ok |-> Tot(s, "ok"), conflict |-> Tot(s, "conflict"),
-                                 unavailable |-> Tot(s, "unavailable"), noconn |-> Tot(s, "noconn"),
+                                 unavailable |-> Tot(s, "unavailable"), noconn |-> Tot(s, "noconn"), notready |-> Tot(s, "notready"),
                                  other |-> Tot(s, "other"),
                                  stored |-> succ[s]]]]
 N == ReplicasFor(rf, Replicated)
@@ -130,12 +141,18 @@ Case1(r, m) == [rf |-> r, nn |-> r, starts |-> <<0>>, rep |-> 0,
                 ers |-> [i \in 1..r |-> [node |-> i - 1, replica |-> i - 1, series |-> <<1>>]],
                 outs |-> [i \in 1..r |-> OutSeq[m[i]]],
                 orders |-> SetToSeq({ OrderFor(m, a) : a \in Arrangements(m) })]
+Perms(n) == { p \in [1..n -> 1..n] : \A i, j \in 1..n : i # j => p[i] # p[j] }
+(* the receiver itself is replica 0 (node 0): local outcome lo, the other replicas a multiset, every order *)
+LocalOutcomes == {"ok", "conflict", "notready", "other"}
+CaseLocal(r, lo, m) == [rf |-> r, nn |-> r, starts |-> <<0>>, rep |-> 0, local |-> 0,
+                        ers |-> [i \in 1..r |-> [node |-> i - 1, replica |-> i - 1, series |-> <<1>>]],
+                        outs |-> [i \in 1..r |-> IF i = 1 THEN lo ELSE OutSeq[m[i - 1]]],
+                        orders |-> SetToSeq(Perms(r))]
 (* already replicated request: one write *)
 CaseRep(r, k, o) == [rf |-> r, nn |-> r, starts |-> <<0>>, rep |-> k,
                      ers |-> <<[node |-> (k - 1) % r, replica |-> k - 1, series |-> <<1>>]>>,
                      outs |-> <<o>>, orders |-> << <<1>> >>]
 (* two series on N2 nodes, second series starting at node b: every assignment, every order *)
-Perms(n) == { p \in [1..n -> 1..n] : \A i, j \in 1..n : i # j => p[i] # p[j] }
 Case2Set(r, b) ==
     LET st == <<0, b>>
         E == SetToSeq(ErsOf(r, N2, 2, st, 0))
@@ -144,7 +161,9 @@ Case2Set(r, b) ==
     IN { [rf |-> r, nn |-> N2, starts |-> st, rep |-> 0, ers |-> ersRec,
           outs |-> [i \in 1..Len(E) |-> OutSeq[f[i]]],
           orders |-> SetToSeq(Perms(Len(E)))] : f \in [1..Len(E) -> { k \in 1..K : OutSeq[k] # "noconn" }] }
-AllCases == UNION { { Case1(r, m) : m \in Multisets(r) } : r \in CaseRF1 }
+RemoteMultisets(n) == { m \in Multisets(n) : \A i \in 1..n : OutSeq[m[i]] \notin {"noconn", "notready"} }
+AllCases == UNION { { Case1(r, m) : m \in { x \in Multisets(r) : \A i \in 1..r : OutSeq[x[i]] # "notready" } } : r \in CaseRF1 }
+            \cup UNION { { CaseLocal(r, lo, m) : lo \in LocalOutcomes, m \in RemoteMultisets(r - 1) } : r \in CaseRFLocal }
             \cup { CaseRep(r, k, o) : r \in { x \in CaseRF1 : x <= 3 }, k \in 1..3, o \in CaseOutcomes }
             \cup UNION { Case2Set(r, b) : r \in CaseRF2, b \in 0..(N2 - 1) }
 ASSUME ndJsonSerialize(CasesFile, SetToSeq({ c \in AllCases : c.rep <= c.rf }))
